@@ -310,6 +310,35 @@ def check_adm(run: Run, prog: Program) -> None:
               "the admission check and the distribution see different data", node=fn.node, file=fn.file)
 
 
+def check_adm_min(run: Run, prog: Program) -> None:
+    """The exclusion bound enforced at admission dominates the sum of the groups' minimum powers.
+
+    Lemma (all exclusion magnitudes >= 0):  Σ_g max(b_g, Σ_i x_gi) >= Σ_g max(b_g, min_i x_gi) = Σ_g min_power_g,
+    so an admitted request never makes the reservation loop over-commit.  `max(Σ_g b_g, Σ_gi x_gi)`
+    does NOT dominate it (battery-dominated and inverter-dominated groups mixed)."""
+    from .c17 import enforced, min_power_shape_ok
+    enf = enforced(prog)
+    fn = enf["fn"]
+    run.analysed(fn.qual)
+    for fld, key, op in (("exclusion_upper", "eu", "max"), ("exclusion_lower", "el", "min")):
+        e = enf["terms"].get(fld)
+        ok = e == ("sum_g", op, (("leaf", ("bat", key)), ("sum_i", ("inv", key))))
+        run.check(ok, "C02.ADM", fn.qual, f"{fld} = Σ_g {op}(battery aggregate, Σ_i inverter)",
+                  f"the {fld.replace('_', ' ')} bound enforced at admission is not the per-group "
+                  f"{op}(battery exclusion, Σ inverter exclusion) summed over the groups (found {e}): when the "
+                  "exclusion zone sits on the battery in some groups and on the inverter in others a request "
+                  "smaller than the sum of the groups' minimum powers is admitted; the reservation loop "
+                  "over-commits and the difference is taken back from the first group, which ends inside its "
+                  "exclusion zone or is commanded against the sign of the request",
+                  node=fn.node, file=fn.file,
+                  instance=f"{fn.qual}: {fld} dominates Σ_g min_power_g")
+    ar, ok = min_power_shape_ok(prog)
+    run.check(ok, "C02.ADM", ar.qual, "min_power_g = max(b_g, min_i x_i)",
+              "a group's minimum power is not max(battery exclusion, smallest inverter exclusion): the "
+              "dominance of the enforced exclusion bound over Σ_g min_power_g is not established",
+              node=ar.node, file=ar.file)
+
+
 def check_adm_order(run: Run, prog: Program) -> None:
     """Order-domain: whatever _check_request lets through is inside the enforced bounds."""
     from ._admission import explore_admission
@@ -419,6 +448,7 @@ def run_rules(run: Run, prog: Program) -> None:
     check_inv(run, prog)
     check_avail(run, prog)
     check_adm(run, prog)
+    check_adm_min(run, prog)
     check_adm_order(run, prog)
     check_pure(run, prog)
 
